@@ -1,7 +1,7 @@
 """Stage-level conformance (binding C): recorded hook events -> PipelineTrace events."""
 from . import common
 
-MODELLED = set(" -~|:!+.',`_=")
+MODELLED = set(" -~|:!+.',`_=/\\()")
 
 
 class Inexact(Exception):
@@ -26,7 +26,9 @@ def frag(fs):
     if k == "line":
         return {"k": "L", "s": pt(f["s"]), "e": pt(f["e"]), "b": f["b"], "cells": cells}
     if k == "arc":
-        return {"k": "A", "s": pt(f["s"]), "e": pt(f["e"]), "r": L8(f["r"]), "sw": f["sweep"], "cells": cells}
+        return {"k": "A", "s": pt(f["s"]), "e": pt(f["e"]), "r": L8(f["r"]), "sw": f["sweep"], "mj": f["major"], "cells": cells}
+    if k == "circle":
+        return {"k": "C", "c": pt(f["c"]), "r": L8(f["r"]), "cells": cells}
     if k == "rect":
         return {"k": "R", "s": pt(f["s"]), "e": pt(f["e"]), "r": L8(f["r"]), "b": f["b"], "cells": cells}
     if k == "ctext":
@@ -50,7 +52,7 @@ def events_of(stages):
         elif s == "spans":
             out.append({"ev": "spans", "spans": [[[c[0], c[1]] for c in sp] for sp in st["spans"]]})
         elif s == "circle":
-            out.append({"ev": "circle", "span": [[c[0], c[1]] for c in st["span"]], "accepted": len(st["accepted"]),
+            out.append({"ev": "circle", "span": [[c[0], c[1]] for c in st["span"]], "accepted": [frag(f) for f in st["accepted"]],
                         "rest": [[c[0], c[1]] for c in st["rest"]]})
         elif s == "merged":
             out.append({"ev": "merged", "span": [[c[0], c[1]] for c in st["span"]], "frags": [frag(f) for f in st["frags"]]})
@@ -60,7 +62,7 @@ def events_of(stages):
             out.append({"ev": "rects", "accepted": [frag(f) for f in st["accepted"]],
                         "rejects": [[frag(f) for f in g] for g in st["rejects"]]})
         elif s == "reendorse":
-            out.append({"ev": "reendorse", "accepted": len(st["accepted"]),
+            out.append({"ev": "reendorse", "accepted": [frag(f) for f in st["accepted"]],
                         "rejects": [[[c[0], c[1]] for c in sp] for sp in st["rejects"]]})
     return out
 
